@@ -1,0 +1,9 @@
+//go:build verif
+
+package transforms
+
+func VerifQuickSelectMedian(sequence []float64, low, hi, k int) float64 {
+	return quickSelectMedian(sequence, low, hi, k)
+}
+func VerifForwardDCT64(input []float64)  { forwardDCT64(input) }
+func VerifForwardDCT256(input []float64) { forwardDCT256(input) }
